@@ -756,14 +756,17 @@ Proof.
   - unfold zexpand. rewrite (make_expand Z.eqb zd zeqb_spec). simpl. rewrite Nat.sub_0_r. apply app_nil_r.
 Qed.
 
-Lemma get_sensor_ext ps ps' name ar : map p_sens ps = map p_sens ps' -> map nT ps = map nT ps' ->
-  get_sensor ps name ar = get_sensor ps' name ar /\ spec_sensor ps name = spec_sensor ps' name.
+Lemma get_sensor_w_ext dc sd ps ps' name ar : map p_sens ps = map p_sens ps' -> map nT ps = map nT ps' ->
+  get_sensor_w dc ps name ar = get_sensor_w dc ps' name ar /\ spec_sensor_w sd ps name = spec_sensor_w sd ps' name.
 Proof.
-  intros A B. unfold get_sensor, spec_sensor.
+  intros A B. unfold get_sensor_w, spec_sensor_w.
   assert (X : map (fun p => find_sens name (p_sens p)) ps = map (fun p => find_sens name (p_sens p)) ps').
   { rewrite <- (map_map p_sens (find_sens name)), A, map_map. reflexivity. }
   rewrite X, B. split; reflexivity.
 Qed.
+Lemma get_sensor_ext ps ps' name ar : map p_sens ps = map p_sens ps' -> map nT ps = map nT ps' ->
+  get_sensor ps name ar = get_sensor ps' name ar /\ spec_sensor ps name = spec_sensor ps' name.
+Proof. exact (get_sensor_w_ext dummy_code dummy_code ps ps' name ar). Qed.
 
 Definition sens_ok (name : Z) (p : part) : Prop :=
   0 < nT p /\ forall dt c, find_sens name (p_sens p) = Some (SCat dt c) -> cd_ok (nT p) c.
@@ -782,21 +785,22 @@ Proof.
   - destruct (IH H) as (a' & Ha & E1 & E2). exists a'. auto.
 Qed.
 
-Theorem sensor_expand : forall ps name ar, Forall (sens_ok name) ps ->
-  match get_sensor ps name ar with
-  | RNum l => spec_sensor ps name = Some l
-  | RCat c => spec_sensor ps name = Some (zexpand c) /\ cd_ok (list_sum (map nT ps)) c
-  | RKeyError => spec_sensor ps name = None
+(* for ANY filler table [dc]: the model with filler dc = the spec with dummy dc *)
+Theorem sensor_expand_w : forall dc ps name ar, Forall (sens_ok name) ps ->
+  match get_sensor_w dc ps name ar with
+  | RNum l => spec_sensor_w dc ps name = Some l
+  | RCat c => spec_sensor_w dc ps name = Some (zexpand c) /\ cd_ok (list_sum (map nT ps)) c
+  | RKeyError => spec_sensor_w dc ps name = None
   | RFail => True
   end.
 Proof.
-  intros ps name ar OK. unfold get_sensor, spec_sensor.
+  intros dc ps name ar OK. unfold get_sensor_w, spec_sensor_w.
   set (xs := map (fun p => find_sens name (p_sens p)) ps).
   destruct (forallb is_absent xs) eqn:A; [reflexivity|].
   destruct (existsb is_cat xs) eqn:C.
   - destruct (existsb is_num xs) eqn:Nm; [exact Logic.I|].
     destruct (cat_dtype xs) as [dt|]; [|exact Logic.I].
-    set (pieces := map (fun nx => cat_piece (dummy_code dt) (fst nx) (snd nx)) (combine (map nT ps) xs)).
+    set (pieces := map (fun nx => cat_piece (dc dt) (fst nx) (snd nx)) (combine (map nT ps) xs)).
     destruct (zcat pieces ar) as [c|] eqn:Z; [|exact Logic.I].
     assert (F : Forall2 cd_ok (map nT ps) pieces).
     { unfold pieces, xs. clear -OK. induction OK as [|p ps (P & H) _ IH]; simpl; constructor; [|exact IH].
@@ -819,6 +823,15 @@ Proof.
     pose proof (existsb_false_in _ _ _ C Hx) as NC.
     destruct (find_sens name (p_sens p)) as [[fl l|dt' c0]|]; cbn [num_piece]; try reflexivity; discriminate.
 Qed.
+
+Theorem sensor_expand : forall ps name ar, Forall (sens_ok name) ps ->
+  match get_sensor ps name ar with
+  | RNum l => spec_sensor ps name = Some l
+  | RCat c => spec_sensor ps name = Some (zexpand c) /\ cd_ok (list_sum (map nT ps)) c
+  | RKeyError => spec_sensor ps name = None
+  | RFail => True
+  end.
+Proof. exact (sensor_expand_w dummy_code). Qed.
 
 (* ------------------------------------------------------------------ 12. time selection: slices of the global mask *)
 Lemma mask_sel_app {A} : forall (m1 m2 : list bool) (l1 l2 : list A), length m1 = length l1 ->
@@ -858,10 +871,10 @@ Qed.
 Definition mixed_kinds (name : Z) (ps : list part) : bool :=
   let xs := map (fun p => find_sens name (p_sens p)) ps in existsb is_cat xs && existsb is_num xs.
 
-Lemma sensor_answers : forall ps name ar, Forall (sens_ok name) ps -> mixed_kinds name ps = false ->
-  get_sensor ps name ar <> RFail.
+Lemma sensor_answers_w : forall dc ps name ar, Forall (sens_ok name) ps -> mixed_kinds name ps = false ->
+  get_sensor_w dc ps name ar <> RFail.
 Proof.
-  intros ps name ar OK MX. unfold get_sensor, mixed_kinds in *.
+  intros dc ps name ar OK MX. unfold get_sensor_w, mixed_kinds in *.
   set (xs := map (fun p => find_sens name (p_sens p)) ps) in *.
   destruct (forallb is_absent xs) eqn:A; [discriminate|].
   destruct (existsb is_cat xs) eqn:C; [|discriminate].
@@ -874,7 +887,7 @@ Proof.
     { apply in_flat_map. exists (Some (SCat dt c)). split; [exact Ho|left; reflexivity]. }
     rewrite E in H. destruct H. }
   destruct D as (dt & ->).
-  set (pieces := map (fun nx => cat_piece (dummy_code dt) (fst nx) (snd nx)) (combine (map nT ps) xs)).
+  set (pieces := map (fun nx => cat_piece (dc dt) (fst nx) (snd nx)) (combine (map nT ps) xs)).
   assert (F : Forall2 cd_ok (map nT ps) pieces).
   { unfold pieces, xs. clear -OK. induction OK as [|p ps (P & H) _ IH]; simpl; constructor; [|exact IH].
     unfold cat_piece. destruct (find_sens name (p_sens p)) as [[fl l|dt' c0]|] eqn:E.
@@ -885,8 +898,26 @@ Proof.
   - intro X. rewrite X in F. inversion F as [E|]. symmetry in E. apply map_eq_nil in E. subst ps. cbn in A. discriminate.
   - intros q Hq. destruct (F2_in_r _ _ _ q F Hq) as (n & _ & Hn). apply Hn.
 Qed.
+Lemma sensor_answers : forall ps name ar, Forall (sens_ok name) ps -> mixed_kinds name ps = false ->
+  get_sensor ps name ar <> RFail.
+Proof. exact (sensor_answers_w dummy_code). Qed.
 
 (* ... on the opened concatenation (the rewritten parts keep their sensors and dump counts) *)
+Theorem sensor_expand_open_w : forall dc input ps m name ar,
+  sort_parts input = Some ps -> Forall part_ok ps -> concat_open input = COk m -> Forall (sens_ok name) ps ->
+  match get_sensor_w dc (m_parts m) name ar with
+  | RNum l => spec_sensor_w dc ps name = Some l
+  | RCat c => spec_sensor_w dc ps name = Some (zexpand c) /\ cd_ok (list_sum (map nT ps)) c
+  | RKeyError => spec_sensor_w dc ps name = None
+  | RFail => mixed_kinds name ps = true
+  end.
+Proof.
+  intros dc input ps m name ar E OK H SO. pose proof (concat_open_facts input ps m E OK H) as O.
+  destruct (get_sensor_w_ext dc dc (m_parts m) ps name ar (op_sens _ _ O) (op_nT _ _ O)) as (G & _). rewrite G.
+  pose proof (sensor_expand_w dc ps name ar SO) as X. pose proof (sensor_answers_w dc ps name ar SO) as Y.
+  destruct (get_sensor_w dc ps name ar); try exact X.
+  destruct (mixed_kinds name ps); [reflexivity|]. exfalso. apply Y; reflexivity.
+Qed.
 Theorem sensor_expand_open : forall input ps m name ar,
   sort_parts input = Some ps -> Forall part_ok ps -> concat_open input = COk m -> Forall (sens_ok name) ps ->
   match get_sensor (m_parts m) name ar with
@@ -895,13 +926,7 @@ Theorem sensor_expand_open : forall input ps m name ar,
   | RKeyError => spec_sensor ps name = None
   | RFail => mixed_kinds name ps = true
   end.
-Proof.
-  intros input ps m name ar E OK H SO. pose proof (concat_open_facts input ps m E OK H) as O.
-  destruct (get_sensor_ext (m_parts m) ps name ar (op_sens _ _ O) (op_nT _ _ O)) as (G & _). rewrite G.
-  pose proof (sensor_expand ps name ar SO) as X. pose proof (sensor_answers ps name ar SO) as Y.
-  destruct (get_sensor ps name ar); try exact X.
-  destruct (mixed_kinds name ps); [reflexivity|]. exfalso. apply Y; reflexivity.
-Qed.
+Proof. exact (sensor_expand_open_w dummy_code). Qed.
 
 (* the statement of C19_concat_expand *)
 Lemma concat_expand_all : forall input ps m,
@@ -945,7 +970,7 @@ Lemma dummy_code_def : forall dt,
                   end.
 Proof. reflexivity. Qed.
 
-(* ------------------------------------------------------------------ 13. unsigned integer sensors (finding C19-F4) *)
+(* ------------------------------------------------------------------ 13. unsigned integer sensors (finding C19-F4, repaired) *)
 Lemma lacks_some_ext ps ps' name : map p_sens ps = map p_sens ps' -> lacks_some ps name = lacks_some ps' name.
 Proof.
   intro A. unfold lacks_some.
@@ -954,12 +979,68 @@ Proof.
   rewrite X. reflexivity.
 Qed.
 
-(* ConcatenatedSensorCache.get = concatenation with dummy fill, EXCEPT for a sensor of an unsigned integer type that
-   some part lacks (guard spelled out) *)
-Theorem unsigned_sensor_partial : forall input ps m name ar uns,
+(* the integer dummy of the model is the generated constant of dummy_sensor_getter, -1 *)
+Lemma dummy_code_int : dummy_code SensorCache.DInt = (-1)%Z.
+Proof. reflexivity. Qed.
+
+(* np.array(-1).astype(dtype)[()] = the dummy the property names: -1 for a signed type, the largest value 2^b - 1 of an
+   unsigned type of b bits *)
+Lemma dummy_code_u_is_spec : forall ubits dt, dummy_code_u ubits dt = spec_dummy_u ubits dt.
+Proof.
+  intros ubits dt. destruct dt; try reflexivity.
+  unfold dummy_code_u, spec_dummy_u, int_dummy. rewrite dummy_code_int.
+  destruct (ubits <=? 0)%Z eqn:B; [reflexivity|]. apply Z.leb_gt in B.
+  assert (P : (0 < 2 ^ ubits)%Z) by (apply Z.pow_pos_nonneg; lia).
+  symmetry. apply Z.mod_unique with (q := (-1)%Z); lia.
+Qed.
+Lemma dummy_code_u_0 : forall dt, dummy_code_u 0 dt = dummy_code dt.
+Proof. destruct dt; reflexivity. Qed.
+
+Lemma spec_sensor_w_ext sd sd' ps name : (forall dt, sd dt = sd' dt) -> spec_sensor_w sd ps name = spec_sensor_w sd' ps name.
+Proof. intro E. unfold spec_sensor_w. rewrite !E. destruct (cat_dtype _); [rewrite E|]; reflexivity. Qed.
+Lemma get_sensor_w_fext dc dc' ps name ar : (forall dt, dc dt = dc' dt) -> get_sensor_w dc ps name ar = get_sensor_w dc' ps name ar.
+Proof. intro E. unfold get_sensor_w. rewrite !E. destruct (cat_dtype _); [rewrite E|]; reflexivity. Qed.
+
+(* a sensor of one of C12's types: get_sensor_u is get_sensor, spec_sensor_u is spec_sensor *)
+Lemma get_sensor_u_0 : forall ps name ar, get_sensor_u ps name ar 0 = get_sensor ps name ar.
+Proof. intros. apply get_sensor_w_fext, dummy_code_u_0. Qed.
+Lemma spec_sensor_u_0 : forall ps name, spec_sensor_u 0 ps name = spec_sensor ps name.
+Proof. intros. apply spec_sensor_w_ext. destruct dt; reflexivity. Qed.
+
+Lemma unsigned_signed_case : forall ps name ar,
+  get_sensor_u ps name ar 0 = get_sensor ps name ar /\ spec_sensor_u 0 ps name = spec_sensor ps name.
+Proof. intros. split; [apply get_sensor_u_0 | apply spec_sensor_u_0]. Qed.
+
+(* FULL strength (after the repair of C19-F4): ConcatenatedSensorCache.get = concatenation with the dummy of the type,
+   for sensors of an unsigned integer type of any width too, whatever subset of the parts has them *)
+Theorem unsigned_sensor : forall input ps m name ar ubits,
+  sort_parts input = Some ps -> Forall part_ok ps -> concat_open input = COk m -> Forall (sens_ok name) ps ->
+  match get_sensor_u (m_parts m) name ar ubits with
+  | RNum l => spec_sensor_u ubits ps name = Some l
+  | RCat c => spec_sensor_u ubits ps name = Some (zexpand c) /\ cd_ok (list_sum (map nT ps)) c
+  | RKeyError => spec_sensor_u ubits ps name = None
+  | RFail => mixed_kinds name ps = true
+  end.
+Proof.
+  intros input ps m name ar ubits E OK H SO. unfold get_sensor_u, spec_sensor_u.
+  rewrite <- (spec_sensor_w_ext (dummy_code_u ubits) (spec_dummy_u ubits) ps name (dummy_code_u_is_spec ubits)).
+  exact (sensor_expand_open_w (dummy_code_u ubits) input ps m name ar E OK H SO).
+Qed.
+
+(* the filler of an unsigned type of b bits over a part that lacks the sensor is 2^b - 1, never -1 *)
+Lemma unsigned_filler_in_range : forall ubits, (0 < ubits)%Z ->
+  (0 <= dummy_code_u ubits SensorCache.DInt < 2 ^ ubits)%Z /\ dummy_code_u ubits SensorCache.DInt = (2 ^ ubits - 1)%Z.
+Proof.
+  intros ubits P. rewrite dummy_code_u_is_spec. unfold spec_dummy_u.
+  destruct (ubits <=? 0)%Z eqn:B; [apply Z.leb_le in B; lia|].
+  assert (0 < 2 ^ ubits)%Z by (apply Z.pow_pos_nonneg; lia). lia.
+Qed.
+
+(* what the code did BEFORE the repair: under the guard only *)
+Theorem unsigned_sensor_partial_before_fix : forall input ps m name ar uns,
   sort_parts input = Some ps -> Forall part_ok ps -> concat_open input = COk m -> Forall (sens_ok name) ps ->
   uns = false \/ lacks_some ps name = false ->
-  match get_sensor_u (m_parts m) name ar uns with
+  match get_sensor_u_before_fix (m_parts m) name ar uns with
   | RNum l => spec_sensor ps name = Some l
   | RCat c => spec_sensor ps name = Some (zexpand c) /\ cd_ok (list_sum (map nT ps)) c
   | RKeyError => spec_sensor ps name = None
@@ -967,7 +1048,7 @@ Theorem unsigned_sensor_partial : forall input ps m name ar uns,
   end.
 Proof.
   intros input ps m name ar uns E OK H SO G. pose proof (concat_open_facts input ps m E OK H) as O.
-  unfold get_sensor_u. rewrite (lacks_some_ext (m_parts m) ps name (op_sens _ _ O)).
+  unfold get_sensor_u_before_fix. rewrite (lacks_some_ext (m_parts m) ps name (op_sens _ _ O)).
   assert (X : uns && lacks_some ps name = false) by (destruct G as [-> | ->]; [reflexivity | apply andb_false_r]).
   rewrite X. exact (sensor_expand_open input ps m name ar E OK H SO).
 Qed.
